@@ -729,6 +729,32 @@ func jpWorkload(c Case, which string, res *CaseResult) {
 			}
 		}
 	}
+	// 9. a callee whose instruction right after a nested CALL (that returned data) fails before executing
+	//    (stack underflow / out of gas on its own charge): the post join point must see NO return data
+	{
+		child := h.NewAsm().Push(h.U(0xc0ffee)).PushU(0).Op(h.MSTORE).PushU(32).PushU(0).Op(h.RETURN)
+		mid := h.NewAsm()
+		mid.PushU(32).PushU(0).PushU(0).PushU(0).PushU(0).PushAddr(h.ContractAddr(2))
+		if c.Seed%2 == 0 {
+			mid.PushU(30000).Op(h.CALL, h.ADD) // ADD with one item on the stack: underflow
+		} else {
+			mid.Op(h.GAS, h.CALL, h.POP).PushU(1).PushU(1).Op(h.SSTORE) // all but 1/64 forwarded: little is left afterwards
+		}
+		mid.Op(h.STOP)
+		top := h.NewAsm().PushU(0).PushU(0).PushU(1).PushU(0).PushU(0).PushAddr(h.ContractAddr(1)).PushU(uint64(40000+c.Seed%1000)).Op(h.CALL).PushU(1).Op(h.SSTORE, h.STOP)
+		w := h.BaseWorld([][]byte{top.Bytes(), mid.Bytes(), child.Bytes()})
+		fork := sc.Fork
+		if fork < h.Tangerine {
+			fork = h.Byzantium
+		}
+		s9 := &scenario{Fork: fork, NContract: 3, World: w, Tx: h.TxSpec{Entry: h.ECall, From: h.Sender, To: h.ContractAddr(0), Input: []byte{7}, Gas: 400000, Value: new(big.Int)}}
+		pl := &h.AspectPlan{Pre: map[common.Address][]h.Binding{}, Post: map[common.Address][]h.Binding{}, FailAt: map[int]error{}}
+		var id common.Address
+		id[0], id[19] = 0xa5, 0x79
+		pl.Post[h.ContractAddr(1)] = []h.Binding{{AspectID: id, Loops: 0}}
+		check(runJP(s9, pl, true, nil), "fault-after-call", jpCheckOpts{plan: pl})
+		res.Count("fault_after_call_runs", 1)
+	}
 	res.Evals = evals
 	res.Set("forks", sc.Fork.String())
 	if c.Seed%29 == 0 {
